@@ -86,13 +86,13 @@ pub(crate) struct FlushWorker<T: Types> {
 
 impl<T: Types> FlushWorker<T> {
     /// When starting, there is at most one open chunk file that is not sync.
-    pub(crate) fn spawn(self) {
+    pub(crate) fn spawn(self) -> std::thread::JoinHandle<()> {
         std::thread::Builder::new()
             .name("raft_log_wal_flush_worker".to_string())
             .spawn(move || {
                 self.run();
             })
-            .expect("Failed to start sync worker thread");
+            .expect("Failed to start sync worker thread")
     }
 
     pub(crate) fn new(
